@@ -576,6 +576,104 @@ def shrink(prog: dict, bad_of) -> dict:
     return small
 
 
+
+# --------------------------------------------------------------------------- key conversion and the pin after it (F18)
+
+FOLD_BYTES = {k: __import__("base64").b64decode(k) for k in ("name", "kind", "metadata", "AAAA", "a2V5")}
+# raw bytes whose base64 text is an identity key (or a harmless one)
+
+
+def gen_cval(r, depth=0, top=False):
+    """-> (wire for the model, the celtypes value)"""
+    import base64
+    from celpy import celtypes
+    import celpy
+
+    if not top and (depth >= 3 or r.random() < 0.45):
+        v = r.choice(["obj", "evil-name", "ns1", 3, True, None, ["a", 1], "", {"x": "y"}])
+        return {"plain": common_to_wire(v)}, celpy.json_to_cel(v)
+    entries, cel = [], celtypes.MapType()
+    n = r.randrange(1 if top else 0, 6)
+    for _ in range(n):
+        cw, cv = gen_cval(r, depth + 1)
+        if r.random() < 0.35:
+            b64 = r.choice(list(FOLD_BYTES))
+            key = celtypes.BytesType(FOLD_BYTES[b64])
+            assert base64.b64encode(FOLD_BYTES[b64]).decode() == b64
+            kw = {"b": b64}
+        else:
+            k = r.choice(["name", "namespace", "kind", "metadata", "apiVersion", "labels", "spec", "AAAA", "a2V5"])
+            key = celtypes.StringType(k)
+            kw = {"t": k}
+        if key in cel:
+            continue
+        if top and r.random() < 0.5 and kw.get("t", kw.get("b")) != "metadata":
+            pass
+        cel[key] = cv
+        entries.append([kw, cw])
+    if top and r.random() < 0.7 and celtypes.StringType("metadata") not in cel:
+        cw, cv = gen_cval(r, 1, top=True)
+        cel[celtypes.StringType("metadata")] = cv
+        entries.append([{"t": "metadata"}, cw])
+    return {"map": entries}, cel
+
+
+def common_to_wire(v):
+    from common import to_wire
+    return to_wire(v)
+
+
+def explore_conversion(ck: Check, drv: LeanDriver, r, n: int):
+    """`convert_bools` + `_pin_identity` of the tree under test against `Identity.convert` / `pinIdentity`, and the
+    property clause on the implementation: whatever the keys were, the pinned object carries the identity"""
+    from koreo.cel.encoder import convert_bools
+    from koreo.resource_function import reconcile as rec
+
+    pin = getattr(rec, "_pin_identity", None)
+    cases = []
+    for _ in range(n):
+        w, cel = gen_cval(r, top=True)
+        ns = r.choice(["ns1", "ns1", None])
+        cases.append((w, cel, ns))
+    reqs = [{"op": "convertPin", "c": w, "ver": "verif.test/v1", "kind": "Thing", "name": "obj", "ns": ns} for w, _, ns in cases]
+    answers = drv.ask(reqs)
+    klass = type("Thing", (), {"version": "verif.test/v1", "kind": "Thing"})
+    for (w, cel, ns), ans in zip(cases, answers):
+        ck.evaluated()
+        ck.count("convert:case")
+        case = {"type": "convert", "c": w, "ns": ns}
+        try:
+            converted = convert_bools(cel)
+            shown = copy.deepcopy(converted)
+            pinned = None
+            if pin is not None:
+                pinned = pin(converted, rec._forced_overlay(klass, "obj", ns))
+        except Exception as e:
+            ck.disagree(case, ans, repr(e), "convert_bools/_pin_identity raised")
+            continue
+        folded = json.dumps(w).count('"b"')
+        if folded:
+            ck.count("convert:with-bytes-keys")
+            ck.nontriv(json.dumps(w))
+        if "error" in ans:
+            ck.disagree(case, ans, None, "driver-error")
+            continue
+        if g.dumps(from_wire(ans["converted"])) != g.dumps(shown):
+            ck.disagree(case, from_wire(ans["converted"]), shown, "Identity.convert-vs-convert_bools")
+        if pinned is None:
+            ck.count("convert:no-pin-helper")
+            continue
+        if g.dumps(from_wire(ans["pinned"])) != g.dumps(pinned):
+            ck.disagree(case, from_wire(ans["pinned"]), pinned, "Identity.pinIdentity-vs-_pin_identity")
+        ident = g.identity_of(pinned)
+        want = {"apiVersion": "verif.test/v1", "kind": "Thing", "name": "obj"}
+        got = {k: ident.get(k) for k in want}
+        if ns is not None:
+            want["namespace"], got["namespace"] = ns, ident.get("namespace")
+        if got != want:
+            ck.violate(case, f"after conversion and pin the object carries {got}, apiConfig evaluates to {want}")
+
+
 def run(tier: str) -> int:
     ck = Check("C06", tier)
     ck.trusted = [
@@ -849,6 +947,11 @@ def run(tier: str) -> int:
         if sorted(map(g.dumps, want_all)) != sorted(map(g.dumps, mine_all)):
             ck.disagree(case, want_all, mine_all, "concurrent: the requests in flight together vs one by one")
     ck.cov["concurrent_groups"] = n_groups
+
+    try:
+        explore_conversion(ck, drv, rng("c06-convert"), 400 if tier == "quick" else 20000)
+    except ImportError as e:
+        ck.notes.append(f"key-conversion stream not run: {e}")
 
     ck.cov["programs"] = len(work)
     ck.cov["grid"] = {"layer_subsets": 32, "replacement_kinds": len(KINDS), "full": tier != "quick"}
